@@ -26,6 +26,7 @@ type Config struct {
 	Unit            int    `json:"unit,omitempty"` // atomic persistence unit of the shadow disk
 	PreLoadFreelist bool   `json:"preload_freelist,omitempty"`
 	NoStatistics    bool   `json:"no_statistics,omitempty"`
+	NoSync          bool   `json:"no_sync,omitempty"` // fault-free arms only (crash safety is not promised in this mode)
 }
 
 // CurCall is one cursor call.
